@@ -1,95 +1,131 @@
 import Toq.Driver.Util
 import Toq.Model.PartialOps
+import Toq.Model.PartialOpsArgs
 /-! Driver front ends for C02 (`partial_trace`) and C03 (`partial_transpose`, `realignment`):
 argument normalisation as in the Python, then the mirror model on integer data. -/
 open Lean Toq.PartialOps
 
 namespace Toq.Driver.C02
 
-/-- `int(np.round(np.sqrt(N)))` -/
-def roundSqrt (N : Nat) : Nat :=
-  let r := Nat.sqrt N
-  if N - r * r > r then r + 1 else r
+-- The argument decoding (`sys` / `dim` forms, defaults, error guards) and the cvxpy `Variable` branch are
+-- part of the model: `Toq/Model/PartialOpsArgs.lean` (`partialTraceArgs`, `partialTransposeArgs`,
+-- `realignmentArgs`, `partialTraceCvx`, `partialTransposeCvx`); the handlers below only translate JSON.
 
-def parseSys (j : Json) : Except String (List Nat) := do
-  if isNull j "sys" then return [1]
+def asIntList (v : Json) : Except String (List Int) := do
+  let a ← v.getArr?
+  a.toList.mapM (·.getInt?)
+
+/-- `"sys"`: `null` | integer | list of integers (negative allowed: the model decides) -/
+def parseSysArg (j : Json) : Except String SysArg := do
+  if isNull j "sys" then return .omitted
   let v ← j.getObjVal? "sys"
   match v with
-  | Json.arr _ => asNatList v
-  | _ => return [← v.getNat?]
+  | Json.arr _ => return .list (← asIntList v)
+  | _ => return .int (← v.getInt?)
 
-/-- `partial_trace` -/
+/-- `"dim"` of `partial_trace`: `null` | integer | list -/
+def parseDimArg (j : Json) : Except String DimArg := do
+  if isNull j "dim" then return .omitted
+  let v ← j.getObjVal? "dim"
+  match v with
+  | Json.arr _ => return .list (← asNatList v)
+  | _ => return .scalar (← v.getNat?)
+
+def rejectRej (e : Rej) : Json := reject e.name
+
+/-- `partial_trace` on a numeric array -/
 def hPartialTrace : Handler := fun j => do
   let N ← getNat j "n"
   let data ← getIntArray j "data"
-  let sys ← parseSys j
-  let dim0 : List Nat ←
-    if isNull j "dim" then pure [roundSqrt N]
-    else match (← j.getObjVal? "dim") with
-      | Json.arr a => a.toList.mapM (·.getNat?)
-      | v => do pure [← v.getNat?]
-  let dims : Option (List Nat) :=
-    match dim0 with
-    | [d] => if d != 0 && N % d == 0 then some [d, N / d] else none
-    | l => some l
-  match dims with
-  | none => return reject "InvalidDim"
-  | some dl =>
-    let n := dl.length
-    if dl.foldl (· * ·) 1 != N then return reject "InvalidDim"
-    if sys.any (· ≥ n) then return reject "InvalidSys"
-    let dims := fnOfList dl
-    let T := prodList dims sys
-    let K := N / T
-    let out := arrayOfMat K K (partialTrace (matOfArray data N) n dims sys)
-    return Json.mkObj [("shape", natListJson [K, K]), ("data", intArrayJson out)]
+  let sys ← parseSysArg j
+  let dim ← parseDimArg j
+  match partialTraceArgs (matOfArray data N) N sys dim with
+  | .error e => return rejectRej e
+  | .ok (K, Y) =>
+    return Json.mkObj [("shape", natListJson [K, K]), ("data", intArrayJson (arrayOfMat K K Y))]
 
-/-- `partial_transpose` -/
+def leavesJson (e : CvxExpr) : Json :=
+  Json.arr (e.leaves.map (fun (p : Nat × Nat) => natListJson [p.1, p.2])).toArray
+
+/-- `partial_trace` on a cvxpy `Variable` of shape `n × n`: for every entry of the returned expression
+    (row-major) the list of index atoms `[r, c]` it sums, in order -/
+def hPartialTraceSym : Handler := fun j => do
+  let N ← getNat j "n"
+  let sys ← parseSysArg j
+  let dim ← parseDimArg j
+  match partialTraceCvx N sys dim with
+  | .error e => return rejectRej e
+  | .ok (K, Y) =>
+    return Json.mkObj [("shape", natListJson [K, K]),
+      ("terms", Json.arr ((arrayOfMat K K Y).map leavesJson))]
+
+/-- `"dim"` of `partial_transpose`: `null` | integer | list | `[row dims, column dims]` -/
+def parsePTDimArg (j : Json) : Except String PTDimArg := do
+  if isNull j "dim" then return .omitted
+  let v ← j.getObjVal? "dim"
+  match v with
+  | Json.arr a =>
+    match (a[0]? : Option Json) with
+    | some (Json.arr _) => return .two (← asNatList a[0]!) (← asNatList a[1]!)
+    | _ => return .list (← asNatList v)
+  | _ => return .scalar (← v.getNat?)
+
+/-- `partial_transpose` on a numeric array -/
 def hPartialTranspose : Handler := fun j => do
   let R ← getNat j "rows"
   let C ← getNat j "cols"
   let data ← getIntArray j "data"
-  let sys ← parseSys j
-  let dims2 : Option (List Nat × List Nat) ←
-    if isNull j "dim" then
-      let sr := roundSqrt R; let sc := roundSqrt C
-      pure (some ([sr, sr], [sc, sc]))
-    else do
-      let v ← j.getObjVal? "dim"
-      let a ← v.getArr?
-      match (a[0]? : Option Json) with
-      | some (Json.arr _) => pure (some (← asNatList a[0]!, ← asNatList a[1]!))
-      | _ =>
-        let l ← asNatList v
-        match l with
-        | [d] => if d != 0 && R % d == 0 then pure (some ([d, R / d], [d, R / d])) else pure none
-        | _ => pure (some (l, l))
-  match dims2 with
-  | none => return reject "InvalidDim"
-  | some (rl, cl) =>
-    let n := rl.length
-    if cl.length != n then return reject "InvalidDim"
-    if rl.foldl (· * ·) 1 != R || cl.foldl (· * ·) 1 != C then return reject "InvalidDim"
-    if sys.any (· ≥ n) then return reject "InvalidSys"
-    let rd := fnOfList rl; let cd := fnOfList cl
-    let sr := prodList rd sys; let sc := prodList cd sys
-    let R' := (R / sr) * sc; let C' := (C / sc) * sr
-    let out := arrayOfMat R' C' (partialTranspose (matOfArray data C) n rd cd sys)
-    return Json.mkObj [("shape", natListJson [R', C']), ("data", intArrayJson out)]
+  let sys ← parseSysArg j
+  let dim ← parsePTDimArg j
+  match partialTransposeArgs (matOfArray data C) R C sys dim with
+  | .error e => return rejectRej e
+  | .ok (R', C', Y) =>
+    return Json.mkObj [("shape", natListJson [R', C']), ("data", intArrayJson (arrayOfMat R' C' Y))]
 
-/-- `realignment` with `dim = [[r0,r1],[c0,c1]]` already normalised by the harness as the code does -/
+/-- `partial_transpose` on a cvxpy `Variable` of shape `rows × cols`: for every entry of the returned
+    expression (row-major) the list of index atoms it consists of (always exactly one) -/
+def hPartialTransposeSym : Handler := fun j => do
+  let R ← getNat j "rows"
+  let C ← getNat j "cols"
+  let sys ← parseSysArg j
+  let dim ← parsePTDimArg j
+  match partialTransposeCvx R C sys dim with
+  | .error e => return rejectRej e
+  | .ok (R', C', Y) =>
+    return Json.mkObj [("shape", natListJson [R', C']),
+      ("terms", Json.arr ((arrayOfMat R' C' Y).map leavesJson))]
+
+/-- `"dim"` of `realignment`: `null` | integer | `[a, b]` | `[[r0, r1], [c0, c1]]` -/
+def parseRDimArg (j : Json) : Except String RDimArg := do
+  if isNull j "dim" then return .omitted
+  let v ← j.getObjVal? "dim"
+  match v with
+  | Json.arr a =>
+    match (a[0]? : Option Json) with
+    | some (Json.arr _) =>
+      match (← asNatList a[0]!), (← asNatList a[1]!) with
+      | [r0, r1], [c0, c1] => return .two r0 r1 c0 c1
+      | _, _ => throw "realignment: dim form not modelled"
+    | _ =>
+      match (← asNatList v) with
+      | [x, y] => return .pair x y
+      | _ => throw "realignment: dim form not modelled"
+  | _ => return .scalar (← v.getNat?)
+
+/-- `realignment` on a numeric `rows × cols` array -/
 def hRealignment : Handler := fun j => do
+  let R ← getNat j "rows"
+  let C ← getNat j "cols"
   let data ← getIntArray j "data"
-  let rl ← getNatList j "rdim"
-  let cl ← getNatList j "cdim"
-  match rl, cl with
-  | [r0, r1], [c0, c1] =>
-    if data.size != r0 * r1 * c0 * c1 then return reject "InvalidDim"
-    let out := arrayOfMat (r0 * c0) (r1 * c1) (realignment (matOfArray data (c0 * c1)) r0 r1 c0 c1)
-    return Json.mkObj [("shape", natListJson [r0 * c0, r1 * c1]), ("data", intArrayJson out)]
-  | _, _ => return reject "InvalidDim"
+  let dim ← parseRDimArg j
+  match realignmentArgs (matOfArray data C) R C dim with
+  | .error e => return rejectRej e
+  | .ok (R', C', Y) =>
+    return Json.mkObj [("shape", natListJson [R', C']), ("data", intArrayJson (arrayOfMat R' C' Y))]
 
 def handlers : List (String × Handler) :=
-  [("partial_trace", hPartialTrace), ("partial_transpose", hPartialTranspose), ("realignment", hRealignment)]
+  [("partial_trace", hPartialTrace), ("partial_trace_sym", hPartialTraceSym),
+   ("partial_transpose", hPartialTranspose), ("partial_transpose_sym", hPartialTransposeSym),
+   ("realignment", hRealignment)]
 
 end Toq.Driver.C02
